@@ -1,26 +1,59 @@
 (* C23 — proofs about the front-end model. *)
 From TxV Require Import Core.Base Model.FrontDefs Model.Front.
+From TxV Require Proofs.KindsProofs.
 
 Definition is_crash (o : outcome) : bool := match o with Crash _ => true | _ => false end.
 
+(* ---------------------------------------------------------------- except clauses *)
+Lemma catches_of_type cl e T : mem_str T (cl_types cl) = true -> In T (x_mro e) -> catches cl e = true.
+Proof.
+  intros Hm Hin. unfold catches. apply existsb_exists. exists T. split.
+  - apply mem_str_In. exact Hm.
+  - apply mem_str_In. exact Hin.
+Qed.
+
+(* a clause list that `handles` class T turns every exception with T in its MRO into "swallowed" or a TextXError *)
+Lemma dispatch_handles cls T e w : handles cls T = true -> In T (x_mro e) ->
+  dispatch cls e w = DSwallowed \/ exists c, dispatch cls e w = DOut (TxErr c w).
+Proof.
+  induction cls as [|cl rest IH]; intros Hh Hin; [discriminate|].
+  cbn [handles] in Hh. apply andb_true_iff in Hh as [Hsafe Hor].
+  cbn [dispatch]. destruct (catches cl e) eqn:Hc.
+  - destruct (cl_action cl) as [|[n|] c]; [left; reflexivity | discriminate | right; exists c; reflexivity].
+  - apply orb_true_iff in Hor as [Hm|Hr]; [|exact (IH Hr Hin)].
+    rewrite (catches_of_type cl e T Hm Hin) in Hc. discriminate.
+Qed.
+
+Lemma dispatch_no_crash cls T e w : handles cls T = true -> In T (x_mro e) -> is_crash (out_of (dispatch cls e w)) = false.
+Proof.
+  intros Hh Hin. destruct (dispatch_handles cls T e w Hh Hin) as [-> | [c ->]]; reflexivity.
+Qed.
+
 (* ---------------------------------------------------------------- cfg_safe, unpacked *)
-Lemma cfg_safe_parts c : cfg_safe c = true ->
-  (exists cl, c_ws_guard c = Some cl) /\ handler_ok (c_re_handler c) = true /\ handler_ok (c_str_handler c) = true
-  /\ handler_ok (c_nomatch_handler c) = true /\ handler_ok (c_keyerror_handler c) = true
-  /\ c_ugroup_guard c = true /\ (exists cl, c_alias_guard c = Some cl) /\ c_mmm_getitem c = true
-  /\ c_contains_catches c = true /\ c_ruletype_by_class c = true.
+Record safe_facts (c : cfg) : Prop := {
+  sf_ws : exists cl, c_ws_guard c = Some cl;
+  sf_re : handles (c_re_clauses c) n_Exception = true;
+  sf_str_u : handles (c_str_clauses c) n_UnicodeDecodeError = true;
+  sf_str_i : handles (c_str_clauses c) n_IndexError = true;
+  sf_nomatch : handles (c_nomatch_clauses c) n_NoMatch = true;
+  sf_key : handles (c_keyerror_clauses c) n_KeyError = true;
+  sf_contains : handles (c_contains_clauses c) n_KeyError = true;
+  sf_ugroup : c_ugroup_guard c = true;
+  sf_alias : exists cl, c_alias_guard c = Some cl;
+  sf_mmm : c_mmm_getitem c = true;
+  sf_ruletype : c_ruletype_by_class c = true }.
+
+Lemma cfg_safe_parts c : cfg_safe c = true -> safe_facts c.
 Proof.
   unfold cfg_safe. intro H.
   repeat (apply andb_true_iff in H; destruct H as [H ?]).
-  repeat split; try assumption.
+  constructor; try assumption.
   - destruct (c_ws_guard c) as [cl|]; [exists cl; reflexivity | discriminate].
   - destruct (c_alias_guard c) as [cl|]; [exists cl; reflexivity | discriminate].
 Qed.
 
-Lemma handled_ok h w k1 k2 : handler_ok h = true -> is_crash (handled h w k1 k2) = false.
-Proof.
-  unfold handler_ok, handled. intro H. apply andb_true_iff in H as [H1 H2]. rewrite H1, H2. reflexivity.
-Qed.
+Lemma key_in_mro : In n_KeyError (x_mro exc_KeyError).
+Proof. left. reflexivity. Qed.
 
 (* ---------------------------------------------------------------- first pass *)
 Lemma check_param_no_crash c p : (exists cl, c_ws_guard c = Some cl) -> is_crash (check_param c p) = false.
@@ -40,29 +73,34 @@ Proof.
   destruct (check_param c (norm_param p)); [exact IH | reflexivity | discriminate].
 Qed.
 
-Lemma step_no_crash c o attrs e : cfg_safe c = true -> is_crash (snd (step c o attrs e)) = false.
+Lemma step_no_crash c o user st e : cfg_safe c = true -> oracle_wf o -> is_crash (snd (step c o user st e)) = false.
 Proof.
-  intro Hs. destruct (cfg_safe_parts c Hs) as (Hws & Hre & Hstr & _ & _ & Hug & _ & _ & _ & _).
-  destruct e as [|ps|s|s|cls|op hm onr|a op hm|br bm]; cbn [step snd].
-  - reflexivity.
-  - apply check_params_no_crash; exact Hws.
-  - unfold visit_str_match. destruct (o_decode o s); try reflexivity. apply handled_ok; exact Hstr.
-  - unfold visit_re_match. destruct (o_regex o s); [reflexivity|]. apply handled_ok; exact Hre.
+  intros Hs [Hre [Hdec _]]. destruct (cfg_safe_parts c Hs).
+  destruct e as [n|ps|s|s|cls|op hm onr|a op hm|br bm]; cbn [step snd].
+  - unfold visit_rule_name. destruct (mem_str n user); [destruct (mem_str n (s_used st))|]; reflexivity.
+  - apply check_params_no_crash; assumption.
+  - unfold visit_str_match. destruct (o_decode o s) as [e|] eqn:E; [|reflexivity].
+    destruct (Hdec s e E) as [Hu|Hi].
+    + exact (dispatch_no_crash _ _ e WEscape sf_str_u0 Hu).
+    + exact (dispatch_no_crash _ _ e WEscape sf_str_i0 Hi).
+  - unfold visit_re_match. destruct (o_regex o s) as [e|] eqn:E; [|reflexivity].
+    exact (dispatch_no_crash _ _ e WRegex sf_re0 (Hre s e E)).
   - unfold visit_obj_ref. destruct (mem_str cls (c_base_names c) && negb (str_eqb cls s_OBJECT)); reflexivity.
-  - unfold visit_repeatable_expr. rewrite Hug. destruct op; try reflexivity.
+  - unfold visit_repeatable_expr. rewrite sf_ugroup0. destruct op; try reflexivity.
     + destruct hm; reflexivity.
     + rewrite andb_false_r. reflexivity.
   - unfold visit_assignment.
-    destruct (mem_str a attrs && match op with OpOpt => true | _ => false end); [reflexivity|].
+    destruct (mem_str a (s_attrs st) && match op with OpOpt => true | _ => false end); [reflexivity|].
     destruct (hm && match op with OpOpt | OpEq => true | _ => false end); reflexivity.
   - destruct br; [reflexivity|]. destruct bm; [|reflexivity]. destruct (c_boolmany_check c); reflexivity.
 Qed.
 
-Lemma run_events_no_crash c o es : cfg_safe c = true -> forall attrs, is_crash (run_events c o attrs es) = false.
+Lemma run_events_no_crash c o user es : cfg_safe c = true -> oracle_wf o ->
+  forall st, is_crash (run_events c o user st es) = false.
 Proof.
-  intro Hs. induction es as [|e es IH]; intro attrs; [reflexivity|].
-  cbn [run_events]. pose proof (step_no_crash c o attrs e Hs) as He.
-  destruct (step c o attrs e) as [attrs' r]. cbn [snd] in He.
+  intros Hs Ho. induction es as [|e es IH]; intro st; [reflexivity|].
+  cbn [run_events]. pose proof (step_no_crash c o user st e Hs Ho) as He.
+  destruct (step c o user st e) as [st' r]. cbn [snd] in He.
   destruct r; [apply IH | reflexivity | discriminate].
 Qed.
 
@@ -80,29 +118,34 @@ Qed.
 Lemma lookup_alias_name c o t n tg : lookup_rule c o t n = LAlias tg -> In n (map r_name (t_rules t)).
 Proof.
   unfold lookup_rule. destruct (split_dot n) as [[ns nm]|].
-  - destruct (qualified c o (t_stmts t) ns nm); [discriminate | destruct (c_contains_catches c); discriminate | discriminate].
+  - destruct (qualified c o (t_stmts t) ns nm); [discriminate | | discriminate].
+    destruct (dispatch (c_contains_clauses c) exc_KeyError WRuleRef); discriminate.
   - destruct (last_def n (t_rules t)) as [r|] eqn:E.
     + intros _. exact (last_def_name n (t_rules t) r E).
     + destruct (mem_str n (c_base_names c)); discriminate.
 Qed.
 
-Lemma qualified_err_no_crash c o ss ns nm e : c_mmm_getitem c = true ->
+Lemma propagate_no_crash e w : In n_TextXError (x_mro e) -> is_crash (propagate e w) = false.
+Proof. intro H. unfold propagate. apply mem_str_In in H. rewrite H. reflexivity. Qed.
+
+Lemma qualified_err_no_crash c o ss ns nm e : c_mmm_getitem c = true -> oracle_wf o ->
   qualified c o ss ns nm = QErr e -> is_crash e = false.
 Proof.
-  intro Hm. unfold qualified. destruct (lang_of ns ss) as [l|].
-  - destruct (o_ext o l nm) as [| | |found]; try discriminate.
-    + intro H. injection H as <-. reflexivity.
+  intros Hm [_ [_ Hext]]. unfold qualified. destruct (lang_of ns ss) as [l|].
+  - destruct (o_ext o l nm) as [x| | |found] eqn:E; try discriminate.
+    + intro H. injection H as <-. exact (propagate_no_crash x WRegistration (Hext l nm x E)).
     + rewrite Hm. destruct found; discriminate.
   - destruct (str_eqb ns s_base && mem_str nm (c_base_names c)); discriminate.
 Qed.
 
-Lemma lookup_err_no_crash c o t n e : c_mmm_getitem c = true -> c_contains_catches c = true ->
-  lookup_rule c o t n = LErr e -> is_crash e = false.
+Lemma lookup_err_no_crash c o t n e : c_mmm_getitem c = true -> handles (c_contains_clauses c) n_KeyError = true ->
+  oracle_wf o -> lookup_rule c o t n = LErr e -> is_crash e = false.
 Proof.
-  intros Hm Hc. unfold lookup_rule. destruct (split_dot n) as [[ns nm]|].
+  intros Hm Hc Ho. unfold lookup_rule. destruct (split_dot n) as [[ns nm]|].
   - destruct (qualified c o (t_stmts t) ns nm) as [f| |e'] eqn:Eq; try discriminate.
-    + rewrite Hc. discriminate.
-    + intro H. injection H as <-. exact (qualified_err_no_crash c o _ ns nm e' Hm Eq).
+    + destruct (dispatch_handles _ _ exc_KeyError WRuleRef Hc key_in_mro) as [-> | [cl ->]]; [discriminate|].
+      intro H. injection H as <-. reflexivity.
+    + intro H. injection H as <-. exact (qualified_err_no_crash c o _ ns nm e' Hm Ho Eq).
   - destruct (last_def n (t_rules t)) as [r|].
     + destruct (alias_of r); discriminate.
     + destruct (mem_str n (c_base_names c)); discriminate.
@@ -110,11 +153,12 @@ Qed.
 
 (* With the alias guard, following a reference needs at most one step per rule of the grammar:
    the chain holds distinct rule names. *)
-Lemma follow_no_crash c o t cl : c_alias_guard c = Some cl -> c_mmm_getitem c = true -> c_contains_catches c = true ->
+Lemma follow_no_crash c o t cl : c_alias_guard c = Some cl -> c_mmm_getitem c = true ->
+  handles (c_contains_clauses c) n_KeyError = true -> oracle_wf o ->
   forall fuel chain n, NoDup chain -> incl chain (map r_name (t_rules t)) ->
     fuel + length chain > length (t_rules t) -> is_crash (follow c o t fuel chain n) = false.
 Proof.
-  intros Hg Hm Hc. induction fuel as [|f IH]; intros chain n Hnd Hincl Hlen.
+  intros Hg Hm Hc Ho. induction fuel as [|f IH]; intros chain n Hnd Hincl Hlen.
   - exfalso. pose proof (NoDup_incl_length Hnd Hincl) as Hl. rewrite map_length in Hl. lia.
   - cbn [follow]. destruct (lookup_rule c o t n) as [| |tg|e] eqn:El; try reflexivity.
     + rewrite Hg. destruct (mem_str n chain) eqn:Em; [reflexivity|].
@@ -122,7 +166,19 @@ Proof.
       * constructor; [|exact Hnd]. intro Hin. apply mem_str_In in Hin. congruence.
       * intros x [Hx|Hx]; [subst x; exact (lookup_alias_name c o t n tg El) | exact (Hincl x Hx)].
       * cbn [length]. lia.
-    + exact (lookup_err_no_crash c o t n e Hm Hc El).
+    + exact (lookup_err_no_crash c o t n e Hm Hc Ho El).
+Qed.
+
+(* whatever the budget, the only crash rule-reference resolution can end in is the exhausted budget *)
+Lemma follow_crash_is_recursion c o t cl : c_alias_guard c = Some cl -> c_mmm_getitem c = true ->
+  handles (c_contains_clauses c) n_KeyError = true -> oracle_wf o ->
+  forall fuel chain n x, follow c o t fuel chain n = Crash x -> x = n_RecursionError.
+Proof.
+  intros Hg Hm Hc Ho. induction fuel as [|f IH]; intros chain n x H.
+  - cbn in H. injection H as <-. reflexivity.
+  - cbn [follow] in H. destruct (lookup_rule c o t n) as [| |tg|e] eqn:El; try discriminate.
+    + rewrite Hg in H. destruct (mem_str n chain); [discriminate | exact (IH _ _ _ H)].
+    + pose proof (lookup_err_no_crash c o t n e Hm Hc Ho El) as Hn. rewrite H in Hn. discriminate.
 Qed.
 
 Lemma first_error_in l : first_error l = Ok \/ In (first_error l) l.
@@ -136,59 +192,107 @@ Proof.
   intro H. destruct (first_error_in l) as [E|E]; [rewrite E; reflexivity | exact (H _ E)].
 Qed.
 
-Lemma resolve_rule_refs_no_crash c o t fuel : cfg_safe c = true -> fuel > length (t_rules t) ->
+Lemma resolve_rule_refs_no_crash c o t fuel : cfg_safe c = true -> oracle_wf o -> fuel > length (t_rules t) ->
   is_crash (resolve_rule_refs c o fuel t) = false.
 Proof.
-  intros Hs Hf. destruct (cfg_safe_parts c Hs) as (_ & _ & _ & _ & _ & _ & [cl Hg] & Hm & Hcc & _).
+  intros Hs Ho Hf. destruct (cfg_safe_parts c Hs). destruct sf_alias0 as [cl Hg].
   unfold resolve_rule_refs. apply first_error_no_crash. intros x Hx.
   apply in_map_iff in Hx as [n [<- _]].
-  apply (follow_no_crash c o t cl Hg Hm Hcc); [constructor | intros x [] | cbn [length]; lia].
+  apply (follow_no_crash c o t cl Hg sf_mmm0 sf_contains0 Ho); [constructor | intros x [] | cbn [length]; lia].
+Qed.
+
+Lemma resolve_rule_refs_crash_is_recursion c o t fuel x : cfg_safe c = true -> oracle_wf o ->
+  resolve_rule_refs c o fuel t = Crash x -> x = n_RecursionError.
+Proof.
+  intros Hs Ho H. destruct (cfg_safe_parts c Hs). destruct sf_alias0 as [cl Hg].
+  unfold resolve_rule_refs in H. destruct (first_error_in (map (follow c o t fuel []) (all_refs (t_rules t)))) as [E|E].
+  - rewrite E in H. discriminate.
+  - rewrite H in E. apply in_map_iff in E as [n [E _]].
+    exact (follow_crash_is_recursion c o t cl Hg sf_mmm0 sf_contains0 Ho fuel [] n x E).
+Qed.
+
+(* the rule-kind fixpoint ends for every grammar (C03: Proofs/KindsProofs.kinds_correct) *)
+Lemma rule_kinds_fixpoint_ok c t : rule_kinds_fixpoint c t = Ok.
+Proof.
+  unfold rule_kinds_fixpoint. destruct (KindsProofs.kinds_correct (to_kinds c t)) as [s [H _]]. rewrite H. reflexivity.
 Qed.
 
 Lemma determine_rule_types_no_crash c o t fuel : cfg_safe c = true -> determine_rule_types c o fuel t = Ok.
 Proof.
-  intro Hs. destruct (cfg_safe_parts c Hs) as (_ & _ & _ & _ & _ & _ & _ & _ & _ & Hr).
-  unfold determine_rule_types. rewrite Hr. reflexivity.
+  intro Hs. destruct (cfg_safe_parts c Hs).
+  unfold determine_rule_types. rewrite sf_ruletype0, rule_kinds_fixpoint_ok. reflexivity.
 Qed.
 
 (* ---------------------------------------------------------------- class references *)
-Lemma resolve_cls_name_no_crash c o t n : cfg_safe c = true -> is_crash (resolve_cls_name c o t n) = false.
+Lemma resolve_cls_name_no_crash c o t n : cfg_safe c = true -> oracle_wf o -> is_crash (resolve_cls_name c o t n) = false.
 Proof.
-  intro Hs. destruct (cfg_safe_parts c Hs) as (_ & _ & _ & _ & Hk & _ & _ & Hm & _ & _).
-  pose proof (handled_ok (c_keyerror_handler c) WClsRef KKey KKey Hk) as Hh.
+  intros Hs Ho. destruct (cfg_safe_parts c Hs).
+  pose proof (dispatch_no_crash _ _ exc_KeyError WClsRef sf_key0 key_in_mro) as Hh.
   unfold resolve_cls_name. destruct (split_dot n) as [[ns nm]|].
   - destruct (qualified c o (t_stmts t) ns nm) as [f| |e] eqn:Eq; [reflexivity | exact Hh |].
-    exact (qualified_err_no_crash c o _ ns nm e Hm Eq).
+    exact (qualified_err_no_crash c o _ ns nm e sf_mmm0 Ho Eq).
   - destruct (last_def n (t_rules t)); [reflexivity|].
     destruct (mem_str n (c_base_names c)); [reflexivity | exact Hh].
 Qed.
 
-Lemma resolve_cls_refs_no_crash c o t : cfg_safe c = true -> is_crash (resolve_cls_refs c o t) = false.
+Lemma resolve_cls_refs_no_crash c o t : cfg_safe c = true -> oracle_wf o -> is_crash (resolve_cls_refs c o t) = false.
 Proof.
-  intro Hs. unfold resolve_cls_refs, cls_errors. apply first_error_no_crash. intros x Hx.
-  apply in_map_iff in Hx as [a [<- _]]. apply resolve_cls_name_no_crash; exact Hs.
+  intros Hs Ho. unfold resolve_cls_refs, cls_errors. apply first_error_no_crash. intros x Hx.
+  apply in_map_iff in Hx as [a [<- _]]. apply resolve_cls_name_no_crash; assumption.
 Qed.
+
+Lemma validate_user_no_crash c user rs : is_crash (validate_user_classes c user rs) = false.
+Proof. unfold validate_user_classes. destruct (forallb _ user); reflexivity. Qed.
 
 (* ---------------------------------------------------------------- the whole front-end *)
 Lemma seq_out_no_crash a b : is_crash a = false -> is_crash b = false -> is_crash (seq_out a b) = false.
 Proof. destruct a; cbn; intros; try assumption; try reflexivity. Qed.
 
-Theorem front_total c o fuel g :
-  cfg_safe c = true -> has_import g = false -> fuel > nrules g -> is_crash (front c o fuel g) = false.
+Theorem front_total c o user fuel g :
+  cfg_safe c = true -> oracle_wf o -> parse_wf g -> has_import g = false -> fuel > nrules g ->
+  is_crash (front c o user fuel g) = false.
 Proof.
-  intros Hs Hi Hf. destruct g as [|t]; cbn [front].
-  - destruct (cfg_safe_parts c Hs) as (_ & _ & _ & Hn & _). apply handled_ok; exact Hn.
+  intros Hs Ho Hp Hi Hf. destruct g as [e|t]; cbn [front].
+  - destruct (cfg_safe_parts c Hs). exact (dispatch_no_crash _ _ e WParse sf_nomatch0 Hp).
   - cbn [has_import] in Hi. cbn [nrules] in Hf.
     apply seq_out_no_crash; [unfold visit_stmts; rewrite Hi; reflexivity|].
-    apply seq_out_no_crash; [apply run_events_no_crash; exact Hs|].
+    apply seq_out_no_crash; [apply run_events_no_crash; assumption|].
     apply seq_out_no_crash; [apply resolve_rule_refs_no_crash; assumption|].
-    rewrite (determine_rule_types_no_crash c o t fuel Hs). cbn [seq_out]. apply resolve_cls_refs_no_crash; exact Hs.
+    rewrite (determine_rule_types_no_crash c o t fuel Hs). cbn [seq_out].
+    apply seq_out_no_crash; [apply resolve_cls_refs_no_crash; assumption | apply validate_user_no_crash].
 Qed.
 
-Corollary front_never_crashes c o fuel g k :
-  cfg_safe c = true -> has_import g = false -> fuel > nrules g -> front c o fuel g <> Crash k.
+Corollary front_never_crashes c o user fuel g k :
+  cfg_safe c = true -> oracle_wf o -> parse_wf g -> has_import g = false -> fuel > nrules g ->
+  front c o user fuel g <> Crash k.
 Proof.
-  intros Hs Hi Hf E. pose proof (front_total c o fuel g Hs Hi Hf) as H. rewrite E in H. discriminate.
+  intros Hs Ho Hp Hi Hf E. pose proof (front_total c o user fuel g Hs Ho Hp Hi Hf) as H. rewrite E in H. discriminate.
+Qed.
+
+Lemma seq_out_crash a b x : seq_out a b = Crash x -> a = Crash x \/ (a = Ok /\ b = Crash x).
+Proof. destruct a; cbn; intro H; [right; split; [reflexivity | exact H] | discriminate | left; exact H]. Qed.
+
+(* For EVERY budget: the only exception other than a TextXError is RecursionError, and only when the budget
+   does not exceed the number of rules. *)
+Theorem front_crash_only_recursion c o user fuel g x :
+  cfg_safe c = true -> oracle_wf o -> parse_wf g -> has_import g = false ->
+  front c o user fuel g = Crash x -> x = n_RecursionError /\ fuel <= nrules g.
+Proof.
+  intros Hs Ho Hp Hi H. split.
+  - destruct g as [e|t]; cbn [front] in H.
+    + destruct (cfg_safe_parts c Hs). pose proof (dispatch_no_crash _ _ e WParse sf_nomatch0 Hp) as Hn.
+      rewrite H in Hn. discriminate.
+    + cbn [has_import] in Hi.
+      apply seq_out_crash in H as [H|[_ H]]; [unfold visit_stmts in H; rewrite Hi in H; discriminate|].
+      apply seq_out_crash in H as [H|[_ H]].
+      { pose proof (run_events_no_crash c o user (events t) Hs Ho init_state) as Hn. rewrite H in Hn. discriminate. }
+      apply seq_out_crash in H as [H|[_ H]]; [exact (resolve_rule_refs_crash_is_recursion c o t fuel x Hs Ho H)|].
+      rewrite (determine_rule_types_no_crash c o t fuel Hs) in H. cbn [seq_out] in H.
+      apply seq_out_crash in H as [H|[_ H]].
+      { pose proof (resolve_cls_refs_no_crash c o t Hs Ho) as Hn. rewrite H in Hn. discriminate. }
+      pose proof (validate_user_no_crash c user (t_rules t)) as Hn. rewrite H in Hn. discriminate.
+  - destruct (le_lt_dec fuel (nrules g)) as [Hle|Hgt]; [exact Hle|].
+    exfalso. exact (front_never_crashes c o user fuel g x Hs Ho Hp Hi Hgt H).
 Qed.
 
 (* the outcome does not depend on the recursion budget once it exceeds the number of rules *)
@@ -210,33 +314,126 @@ Proof.
       * cbn [length]. lia.
 Qed.
 
-Theorem front_fuel_irrelevant c o g f1 f2 :
-  cfg_safe c = true -> f1 > nrules g -> f2 > nrules g -> front c o f1 g = front c o f2 g.
+Theorem front_fuel_irrelevant c o user g f1 f2 :
+  cfg_safe c = true -> f1 > nrules g -> f2 > nrules g -> front c o user f1 g = front c o user f2 g.
 Proof.
-  intros Hs H1 H2. destruct g as [|t]; [reflexivity|]. cbn [front nrules] in *.
-  destruct (cfg_safe_parts c Hs) as (_ & _ & _ & _ & _ & _ & [cl Hg] & _).
+  intros Hs H1 H2. destruct g as [e|t]; [reflexivity|]. cbn [front nrules] in *.
+  destruct (cfg_safe_parts c Hs). destruct sf_alias0 as [cl Hg].
   rewrite !(determine_rule_types_no_crash c o t _ Hs).
   f_equal. f_equal. f_equal. unfold resolve_rule_refs. f_equal.
   apply map_ext. intro n.
   apply (follow_fuel_irrelevant c o t cl Hg); [constructor | intros x [] | cbn [length]; lia | cbn [length]; lia].
 Qed.
 
+(* ---------------------------------------------------------------- the visiting order is irrelevant *)
+(* _resolve_rule_refs / _resolve_cls_refs reach the references in an order (a depth-first walk over mutable
+   nodes, with repeats) that the model does not transcribe.  What an order can change is only WHICH error of
+   the phase is reported, never the class of the outcome. *)
+Inductive oclass := ClOk | ClTextX | ClCrash.
+Definition class_of (o : outcome) : oclass := match o with Ok => ClOk | TxErr _ _ => ClTextX | Crash _ => ClCrash end.
+
+Lemma first_error_ok_iff l : first_error l = Ok <-> forall x, In x l -> x = Ok.
+Proof.
+  induction l as [|o l IH]; cbn [first_error].
+  - split; [intros _ x [] | reflexivity].
+  - destruct o.
+    + rewrite IH. split; [intros H x [<-|Hx]; [reflexivity | exact (H x Hx)] | intros H x Hx; exact (H x (or_intror Hx))].
+    + split; [discriminate | intro H; exact (H _ (or_introl eq_refl))].
+    + split; [discriminate | intro H; exact (H _ (or_introl eq_refl))].
+Qed.
+
+Lemma class_of_first_error l : (forall x, In x l -> is_crash x = false) ->
+  class_of (first_error l) = ClOk \/ class_of (first_error l) = ClTextX.
+Proof.
+  intro H. pose proof (first_error_no_crash l H) as Hn. destruct (first_error l); [left | right | discriminate]; reflexivity.
+Qed.
+
+Lemma first_error_class_same_set (f : list N -> outcome) l1 l2 :
+  (forall n, is_crash (f n) = false) -> (forall n, In n l1 <-> In n l2) ->
+  class_of (first_error (map f l1)) = class_of (first_error (map f l2)).
+Proof.
+  intros Hf Hset.
+  assert (Hnc : forall l x, In x (map f l) -> is_crash x = false).
+  { intros l x Hx. apply in_map_iff in Hx as [n [<- _]]. apply Hf. }
+  assert (Hiff : first_error (map f l1) = Ok <-> first_error (map f l2) = Ok).
+  { rewrite !first_error_ok_iff. split; intros H x Hx; apply in_map_iff in Hx as [n [<- Hn]];
+      apply H; apply in_map_iff; exists n; (split; [reflexivity | apply Hset; exact Hn]). }
+  destruct (first_error (map f l1)) eqn:E1; destruct (first_error (map f l2)) eqn:E2; try reflexivity.
+  - destruct Hiff as [H _]. specialize (H eq_refl). discriminate.
+  - pose proof (first_error_no_crash _ (Hnc l2)) as Hn. rewrite E2 in Hn. discriminate.
+  - destruct Hiff as [_ H]. specialize (H eq_refl). discriminate.
+  - pose proof (first_error_no_crash _ (Hnc l2)) as Hn. rewrite E2 in Hn. discriminate.
+  - pose proof (first_error_no_crash _ (Hnc l1)) as Hn. rewrite E1 in Hn. discriminate.
+  - pose proof (first_error_no_crash _ (Hnc l1)) as Hn. rewrite E1 in Hn. discriminate.
+Qed.
+
+(* the phase run over the references in the given order *)
+Definition resolve_in_order (c : cfg) (o : oracles) (fuel : nat) (t : tree) (refs : list (list N)) : outcome :=
+  first_error (map (follow c o t fuel []) refs).
+Definition resolve_cls_in_order (c : cfg) (o : oracles) (t : tree) (types : list (list N)) : outcome :=
+  first_error (map (resolve_cls_name c o t) types).
+
+Theorem resolve_order_irrelevant c o fuel t refs : cfg_safe c = true -> oracle_wf o -> fuel > length (t_rules t) ->
+  (forall n, In n refs <-> In n (all_refs (t_rules t))) ->
+  class_of (resolve_in_order c o fuel t refs) = class_of (resolve_rule_refs c o fuel t).
+Proof.
+  intros Hs Ho Hf Hset. unfold resolve_in_order, resolve_rule_refs.
+  apply first_error_class_same_set; [|exact Hset].
+  intro n. destruct (cfg_safe_parts c Hs). destruct sf_alias0 as [cl Hg].
+  apply (follow_no_crash c o t cl Hg sf_mmm0 sf_contains0 Ho); [constructor | intros x [] | cbn [length]; lia].
+Qed.
+
+Theorem resolve_cls_order_irrelevant c o t types : cfg_safe c = true -> oracle_wf o ->
+  (forall n, In n types <-> In n (map snd (flat_map attrs_rule (effective (t_rules t))))) ->
+  class_of (resolve_cls_in_order c o t types) = class_of (resolve_cls_refs c o t).
+Proof.
+  intros Hs Ho Hset. unfold resolve_cls_in_order, resolve_cls_refs, cls_errors.
+  rewrite <- (map_map snd (resolve_cls_name c o t)).
+  apply first_error_class_same_set; [|exact Hset].
+  intro n. apply resolve_cls_name_no_crash; assumption.
+Qed.
+
 (* Without the guard a self-alias exhausts every recursion budget. *)
 Lemma follow_self_alias_crashes c o t n : c_alias_guard c = None -> lookup_rule c o t n = LAlias n ->
-  forall fuel chain, follow c o t fuel chain n = Crash KRecursion.
+  forall fuel chain, follow c o t fuel chain n = Crash n_RecursionError.
 Proof.
   intros Hg Hl. induction fuel as [|f IH]; intro chain; [reflexivity|].
   cbn [follow]. rewrite Hl, Hg. apply IH.
 Qed.
 
 (* ---------------------------------------------------------------- Witnesses *)
-Definition all_ok : oracles := {| o_regex := fun _ => true; o_decode := fun _ => DecOk; o_ext := fun _ _ => ExtMissing |}.
-Definition bad_regex : oracles := {| o_regex := fun _ => false; o_decode := fun _ => DecOk; o_ext := fun _ _ => ExtMissing |}.
-Definition bad_escape : oracles := {| o_regex := fun _ => true; o_decode := fun _ => DecUnicodeError; o_ext := fun _ _ => ExtMissing |}.
-Definition textx_lang : oracles := {| o_regex := fun _ => true; o_decode := fun _ => DecOk; o_ext := fun _ _ => ExtBuiltin false |}.
+Definition mk_exc (n : list N) (bases : list (list N)) : exc := {| x_name := n; x_mro := n :: bases |}.
+Definition n_error : list N := [101;114;114;111;114]%N.                                             (* re.error *)
+Definition n_OverflowError : list N := [79;118;101;114;102;108;111;119;69;114;114;111;114]%N.
+Definition n_ArithmeticError : list N := [65;114;105;116;104;109;101;116;105;99;69;114;114;111;114]%N.
+Definition n_ValueError : list N := [86;97;108;117;101;69;114;114;111;114]%N.
+Definition n_RuntimeError : list N := [82;117;110;116;105;109;101;69;114;114;111;114]%N.
+Definition exc_re_error := mk_exc n_error [n_Exception; n_BaseException].
+Definition exc_overflow := mk_exc n_OverflowError [n_ArithmeticError; n_Exception; n_BaseException].
+Definition exc_recursion := mk_exc n_RecursionError [n_RuntimeError; n_Exception; n_BaseException].
+Definition exc_unicode := mk_exc n_UnicodeDecodeError [[85;110;105;99;111;100;101;69;114;114;111;114]%N; n_ValueError; n_Exception; n_BaseException].
+Definition exc_nomatch := mk_exc n_NoMatch [n_Exception; n_BaseException].
+Definition exc_registration := mk_exc n_TextXRegistrationError [n_TextXError; n_Exception; n_BaseException].
+
+Definition all_ok : oracles := {| o_regex := fun _ => None; o_decode := fun _ => None; o_ext := fun _ _ => ExtMissing |}.
+Definition bad_regex : oracles := {| o_regex := fun _ => Some exc_re_error; o_decode := fun _ => None; o_ext := fun _ _ => ExtMissing |}.
+Definition overflow_regex : oracles := {| o_regex := fun _ => Some exc_overflow; o_decode := fun _ => None; o_ext := fun _ _ => ExtMissing |}.
+Definition bad_escape : oracles := {| o_regex := fun _ => None; o_decode := fun _ => Some exc_unicode; o_ext := fun _ _ => ExtMissing |}.
+Definition textx_lang : oracles := {| o_regex := fun _ => None; o_decode := fun _ => None; o_ext := fun _ _ => ExtBuiltin false |}.
+Definition lang_found : oracles := {| o_regex := fun _ => None; o_decode := fun _ => None; o_ext := fun _ _ => ExtFound |}.
+Definition lang_unregistered : oracles := {| o_regex := fun _ => None; o_decode := fun _ => None; o_ext := fun _ _ => ExtLangRaises exc_registration |}.
+
+Lemma all_ok_wf : oracle_wf all_ok.
+Proof. repeat split; intros; discriminate. Qed.
+Lemma overflow_regex_wf : oracle_wf overflow_regex.
+Proof.
+  repeat split; intros; try discriminate.
+  cbn in H. injection H as <-. right. right. left. reflexivity.
+Qed.
 
 Definition nA : list N := [65]%N.
 Definition nB : list N := [66]%N.
+Definition nC : list N := [67]%N.
 Definition rule1 (n : list N) (ps : option (list (list N * option (list N)))) (e : expr) rep : rule :=
   {| r_name := n; r_params := ps; r_body := [[RX e rep false]] |}.
 Definition gram (ss : list stmt) (rs : list rule) : ginput := GTree {| t_stmts := ss; t_rules := rs |}.
@@ -253,11 +450,9 @@ Definition g_textx := gram [SReference s_textx None]
   [rule1 nA None (EAsg [97]%N OpEq (ARef (RObj (s_textx ++ [46;70;111;111])%N None false)) None) None]. (* reference textx  A: a=[textx.Foo]; *)
 Definition g_import := gram [SImport] [rule1 nA None (EMatch false (SStr [97]%N)) None].           (* import foo  A: 'a'; *)
 
-
 (* qualified references (rule references may be fully qualified names) *)
 Definition s_lang : list N := [108]%N.                                                              (* l *)
 Definition s_Thing : list N := [84]%N.                                                             (* T *)
-Definition lang_found : oracles := {| o_regex := fun _ => true; o_decode := fun _ => DecOk; o_ext := fun _ _ => ExtFound |}.
 Definition g_qualified_alias := gram [SReference s_lang None]
   [rule1 nA None (ERef false (s_lang ++ [46] ++ s_Thing)%N) None].                                 (* reference l  A: l.T;  *)
 Definition g_unknown_ns := gram []
@@ -266,12 +461,27 @@ Definition g_boolmany := gram []
   [{| r_name := nA; r_params := None;
       r_body := [[RX (EAsg [99]%N OpOpt (ARef (RRule nA)) None) None false];
                  [RX (ERef false nA) None false; RX (EAsg [99]%N OpStar (ARef (RRule nA)) None) None false]] |}]. (* A: c?=A | A c*=A; *)
+(* A: C B; B: B;   -- an undefined rule before an alias cycle *)
+Definition t_undef_cycle : tree := {| t_stmts := [];
+  t_rules := [{| r_name := nA; r_params := None; r_body := [[RX (ERef false nC) None false; RX (ERef false nB) None false]] |};
+              rule1 nB None (ERef false nB) None] |}.
+Definition g_plain := gram [] [rule1 nA None (EMatch false (SStr [97]%N)) None; rule1 nA None (EMatch false (SStr [98]%N)) None]. (* A: 'a'; A: 'b'; *)
 
-Lemma pinned_self_alias_crashes : forall fuel, front pinned_cfg all_ok fuel g_self = Crash KRecursion.
+(* A: B | C;  B: x=INT;  C: 'c'; *)
+Definition t_kinds : tree := {| t_stmts := [];
+  t_rules := [{| r_name := nA; r_params := None; r_body := [[RX (ERef false nB) None false]; [RX (ERef false nC) None false]] |};
+              rule1 nB None (EAsg [120]%N OpEq (ARef (RRule [73;78;84]%N)) None) None;
+              rule1 nC None (EMatch false (SStr [99]%N)) None] |}.
+
+(* A: B; B: C; C: 'x';  -- two alias hops *)
+Definition g_self_chain := gram [] [rule1 nA None (ERef false nB) None; rule1 nB None (ERef false nC) None;
+                                    rule1 nC None (EMatch false (SStr [120]%N)) None].
+
+Lemma pinned_self_alias_crashes : forall fuel, front pinned_cfg all_ok [] fuel g_self = Crash n_RecursionError.
 Proof.
   intro fuel. unfold front, g_self, gram. cbn [t_stmts t_rules].
   replace (visit_stmts []) with Ok by reflexivity.
-  replace (run_events pinned_cfg all_ok [] _) with Ok by (vm_compute; reflexivity).
+  replace (run_events pinned_cfg all_ok [] init_state _) with Ok by (vm_compute; reflexivity).
   cbn [seq_out]. unfold resolve_rule_refs. cbn [t_rules].
   replace (all_refs _) with [nA; nA] by (vm_compute; reflexivity).
   cbn [map first_error].
@@ -280,30 +490,24 @@ Proof.
 Qed.
 
 (* ---------------------------------------------------------------- the alias guard is conservative *)
-(* The same source facts with another answer to "is a rule found in its own alias chain rejected". *)
+(* The same source facts with other answers to: is a rule found in its own alias chain rejected / which except
+   clauses does __contains__ have / is the alias target class taken from the rule. *)
+Definition set_facts (c : cfg) (g : option txclass) (cc : list clause) (rb : bool) (rc : list clause) : cfg :=
+  {| c_params := c_params c; c_param_cls := c_param_cls c; c_split_cls := c_split_cls c; c_ws_guard := c_ws_guard c;
+     c_re_clauses := rc; c_str_clauses := c_str_clauses c; c_nomatch_clauses := c_nomatch_clauses c;
+     c_keyerror_clauses := c_keyerror_clauses c; c_contains_clauses := cc;
+     c_ugroup_guard := c_ugroup_guard c; c_alias_guard := g;
+     c_mmm_getitem := c_mmm_getitem c; c_ruletype_by_class := rb; c_boolmany_check := c_boolmany_check c;
+     c_user_redef_cls := c_user_redef_cls c; c_user_unused_cls := c_user_unused_cls c;
+     c_base_names := c_base_names c |}.
 Definition with_alias_guard (c : cfg) (g : option txclass) : cfg :=
-  {| c_params := c_params c; c_param_cls := c_param_cls c; c_split_cls := c_split_cls c; c_ws_guard := c_ws_guard c;
-     c_re_handler := c_re_handler c; c_str_handler := c_str_handler c; c_nomatch_handler := c_nomatch_handler c;
-     c_keyerror_handler := c_keyerror_handler c; c_ugroup_guard := c_ugroup_guard c; c_alias_guard := g;
-     c_mmm_getitem := c_mmm_getitem c; c_contains_catches := c_contains_catches c;
-     c_ruletype_by_class := c_ruletype_by_class c; c_boolmany_check := c_boolmany_check c;
-     c_base_names := c_base_names c |}.
-
-(* ... with another answer to "does __contains__ catch KeyError" / "is the alias target class taken from the rule" *)
-Definition with_contains (c : cfg) (b : bool) : cfg :=
-  {| c_params := c_params c; c_param_cls := c_param_cls c; c_split_cls := c_split_cls c; c_ws_guard := c_ws_guard c;
-     c_re_handler := c_re_handler c; c_str_handler := c_str_handler c; c_nomatch_handler := c_nomatch_handler c;
-     c_keyerror_handler := c_keyerror_handler c; c_ugroup_guard := c_ugroup_guard c; c_alias_guard := c_alias_guard c;
-     c_mmm_getitem := c_mmm_getitem c; c_contains_catches := b;
-     c_ruletype_by_class := c_ruletype_by_class c; c_boolmany_check := c_boolmany_check c;
-     c_base_names := c_base_names c |}.
+  set_facts c g (c_contains_clauses c) (c_ruletype_by_class c) (c_re_clauses c).
+Definition with_contains (c : cfg) (cc : list clause) : cfg :=
+  set_facts c (c_alias_guard c) cc (c_ruletype_by_class c) (c_re_clauses c).
 Definition with_ruletype_by_class (c : cfg) (b : bool) : cfg :=
-  {| c_params := c_params c; c_param_cls := c_param_cls c; c_split_cls := c_split_cls c; c_ws_guard := c_ws_guard c;
-     c_re_handler := c_re_handler c; c_str_handler := c_str_handler c; c_nomatch_handler := c_nomatch_handler c;
-     c_keyerror_handler := c_keyerror_handler c; c_ugroup_guard := c_ugroup_guard c; c_alias_guard := c_alias_guard c;
-     c_mmm_getitem := c_mmm_getitem c; c_contains_catches := c_contains_catches c;
-     c_ruletype_by_class := b; c_boolmany_check := c_boolmany_check c;
-     c_base_names := c_base_names c |}.
+  set_facts c (c_alias_guard c) (c_contains_clauses c) b (c_re_clauses c).
+Definition with_re_clauses (c : cfg) (rc : list clause) : cfg :=
+  set_facts c (c_alias_guard c) (c_contains_clauses c) (c_ruletype_by_class c) rc.
 
 Lemma lookup_with_guard c g o t n : lookup_rule (with_alias_guard c g) o t n = lookup_rule c o t n.
 Proof. reflexivity. Qed.
@@ -311,7 +515,7 @@ Proof. reflexivity. Qed.
 (* a set of alias rules closed under "target of" : the unguarded resolution never leaves it *)
 Lemma follow_diverges c o t (S : list (list N)) : c_alias_guard c = None ->
   (forall m, In m S -> exists tg, lookup_rule c o t m = LAlias tg /\ In tg S) ->
-  forall fuel chain m, In m S -> follow c o t fuel chain m = Crash KRecursion.
+  forall fuel chain m, In m S -> follow c o t fuel chain m = Crash n_RecursionError.
 Proof.
   intros Hg Hclosed. induction fuel as [|f IH]; intros chain m Hm; [reflexivity|].
   cbn [follow]. destruct (Hclosed m Hm) as [tg [Hl Ht]]. rewrite Hl, Hg. apply IH. exact Ht.
@@ -340,7 +544,7 @@ Qed.
 
 Lemma follow_guard_conservative c o t cl : c_alias_guard c = None ->
   forall fuel chain n, chain_ok c o t chain n ->
-    follow c o t fuel chain n = Crash KRecursion
+    follow c o t fuel chain n = Crash n_RecursionError
     \/ follow c o t fuel chain n = follow (with_alias_guard c (Some cl)) o t fuel chain n.
 Proof.
   intro Hg. induction fuel as [|f IH]; intros chain n Hok; [left; reflexivity|].
@@ -360,8 +564,8 @@ Proof.
 Qed.
 
 Lemma first_error_conservative (la lb : list outcome) :
-  Forall2 (fun a b => a = Crash KRecursion \/ a = b) la lb ->
-  first_error la = Crash KRecursion \/ first_error la = first_error lb.
+  Forall2 (fun a b => a = Crash n_RecursionError \/ a = b) la lb ->
+  first_error la = Crash n_RecursionError \/ first_error la = first_error lb.
 Proof.
   induction 1 as [|a b la lb [ -> | -> ] _ IH]; [right; reflexivity | left; reflexivity |].
   cbn [first_error]. destruct b; [exact IH | right; reflexivity ..].
@@ -370,7 +574,7 @@ Qed.
 (* The repair changes the outcome of rule-reference resolution only where the unguarded code exhausts its
    recursion budget. *)
 Theorem resolve_guard_conservative c cl o fuel t : c_alias_guard c = None ->
-  resolve_rule_refs c o fuel t = Crash KRecursion
+  resolve_rule_refs c o fuel t = Crash n_RecursionError
   \/ resolve_rule_refs c o fuel t = resolve_rule_refs (with_alias_guard c (Some cl)) o fuel t.
 Proof.
   intro Hg. unfold resolve_rule_refs. apply first_error_conservative.
@@ -380,7 +584,7 @@ Proof.
 Qed.
 
 Theorem alias_repair_conservative c cl o fuel t : c_alias_guard c = Some cl ->
-  resolve_rule_refs (with_alias_guard c None) o fuel t = Crash KRecursion
+  resolve_rule_refs (with_alias_guard c None) o fuel t = Crash n_RecursionError
   \/ resolve_rule_refs (with_alias_guard c None) o fuel t = resolve_rule_refs c o fuel t.
 Proof.
   intro H. pose proof (resolve_guard_conservative (with_alias_guard c None) cl o fuel t eq_refl) as P.
@@ -390,11 +594,11 @@ Proof.
 Qed.
 
 Theorem unguarded_never_recovers c o t cl : c_alias_guard c = None ->
-  forall fuel n, follow c o t fuel [] n <> Crash KRecursion ->
+  forall fuel n, follow c o t fuel [] n <> Crash n_RecursionError ->
   forall fuel', fuel' >= fuel -> follow c o t fuel' [] n = follow (with_alias_guard c (Some cl)) o t fuel' [] n.
 Proof.
   intros Hg.
-  assert (mono : forall fuel chain n, follow c o t fuel chain n <> Crash KRecursion ->
+  assert (mono : forall fuel chain n, follow c o t fuel chain n <> Crash n_RecursionError ->
                  forall fuel', fuel' >= fuel -> forall chain', follow c o t fuel' chain' n = follow c o t fuel chain n).
   { induction fuel as [|f IH]; intros chain n Hnc fuel' Hge chain'; [cbn in Hnc; congruence|].
     destruct fuel' as [|f']; [lia|]. cbn [follow] in *.
